@@ -36,6 +36,8 @@ class QuaHoldList(HoldList[QuaHold], QuaNoteList[QuaHold]):
         )
         df.offset = df.offset.fillna(0)
         df.column = df.column.fillna(0)
+        # An omitted KeySounds is an empty list of key sounds
+        df.keysounds = [k if isinstance(k, list) else [] for k in df.keysounds]
         df.length = df.length.fillna(0)
         return QuaHoldList(df)
 
